@@ -184,7 +184,7 @@ func (s *vfSticky) event(op vfStickyOp, d *vfDialog, rnd *rand.Rand, expires int
 	ua := s.g.ip("10.0.5.5")
 	switch op.Op {
 	case "initial":
-		res := s.step("initial", ua, 40000, s.request(d, "INVITE", false, false))
+		res := s.step("initial", ua, 24000, s.request(d, "INVITE", false, false))
 		for _, o := range res.Outs {
 			if o.Kind == "backend" {
 				d.holder = o.Addr
@@ -217,7 +217,7 @@ func (s *vfSticky) event(op vfStickyOp, d *vfDialog, rnd *rand.Rand, expires int
 		if expires > 0 { // a request's Expires is not what the pin's lifetime is measured by
 			extra = append(extra, vfHdr{"Expires", fmt.Sprint(expires)})
 		}
-		res := s.step("indialog-"+op.M, ua, 40000, s.request(d, op.M, swap, true, extra...))
+		res := s.step("indialog-"+op.M, ua, 24000, s.request(d, op.M, swap, true, extra...))
 		if op.M == "INVITE" {
 			for _, o := range res.Outs {
 				if o.Kind == "backend" {
@@ -231,7 +231,7 @@ func (s *vfSticky) event(op vfStickyOp, d *vfDialog, rnd *rand.Rand, expires int
 		if op.M == "reason" {
 			st = "terminated;reason=timeout"
 		}
-		s.step("notify-"+st, ua, 40000, s.request(d, "NOTIFY", rnd.Intn(2) == 0, true, vfHdr{"Subscription-State", st}))
+		s.step("notify-"+st, ua, 24000, s.request(d, "NOTIFY", rnd.Intn(2) == 0, true, vfHdr{"Subscription-State", st}))
 	case "bye":
 		if d.holder == "" {
 			return
@@ -266,7 +266,7 @@ func (s *vfSticky) event(op vfStickyOp, d *vfDialog, rnd *rand.Rand, expires int
 		time.Sleep(s.timeout + 25*time.Millisecond)
 	case "unrelated":
 		u := s.newDialog(rnd, 900000+s.nbr)
-		s.step("unrelated", ua, 40000, s.request(u, []string{"OPTIONS", "MESSAGE", "REGISTER"}[rnd.Intn(3)], false, false))
+		s.step("unrelated", ua, 24000, s.request(u, []string{"OPTIONS", "MESSAGE", "REGISTER"}[rnd.Intn(3)], false, false))
 	}
 }
 
@@ -304,7 +304,7 @@ func TestVfSticky(t *testing.T) {
 	s := &vfSticky{t: t, tr: tr}
 	s.g = &vfGamma{base: vfIPBase(), rnd: vfRand(4), decor: 1}
 	vfAllSinks.get(t, s.g.ip("10.0.2.1"), 5062)
-	vfAllSinks.get(t, s.g.ip("10.0.5.5"), 40000)
+	vfAllSinks.get(t, s.g.ip("10.0.5.5"), 24000)
 	rnd := vfRand(44)
 	ncase := 0
 	mode := vfEnv("VERIF_MODE", "c04")
